@@ -33,7 +33,7 @@ def _kick_sweep():
 
 PROPERTIES = {
     'C01': {
-        'units': SM_KICK + SM_FP + [sm.IdentityApply],
+        'units': SM_KICK + SM_FP + [sm.IdentityApply, mainspec.MapDispatch],
         'native_sweep': _kick_sweep(),
         'lemmas': [sm.lemmas_weights, sm.lemmas_c01_col, sm.lemmas_fp, sm.lemmas_fp_transition],
         'lean': [('lemmas/SumComm.lean', 'L-SUMCOMM.total_conserved_of_column_sums_one', {'C01'})],
@@ -46,7 +46,7 @@ PROPERTIES = {
         'technique': TECH,
     },
     'C02': {
-        'units': [sm.CalcCoefficiants, sm.UpdateSM, sm.KickMapApply],
+        'units': [sm.CalcCoefficiants, sm.UpdateSM, sm.KickMapApply, mainspec.MapDispatch],
         'leaves': [leaf.CalcCoeffZeroLeaf],
         'lemmas': [sm.lemmas_weights],
         # thorough tier, labelled bounded stand-in (exhaustive over the finite domain / fixed sizes), never counted as proved:
@@ -62,7 +62,7 @@ PROPERTIES = {
         'technique': TECH,
     },
     'C08': {
-        'units': SM_KICK + SM_FP + [sm.IdentityApply],
+        'units': SM_KICK + SM_FP + [sm.IdentityApply, mainspec.MapDispatch],
         'native_sweep': _kick_sweep(),
         'lemmas': [sm.lemmas_c08],
         'technique': TECH,
@@ -72,7 +72,7 @@ PROPERTIES = {
         'explanation': 'per-bunch functional postconditions (ghost cell n,x,y) and frames of every transport map',
     },
     'C15': {
-        'units': [sm.KickMapApplyTo, sm.FokkerPlanckApplyTo, sm.UpdateSM, sm.CalcCoefficiants, io.HDF5AppendTracks, mainspec.MainTrackingFile, mainloop.MainLoop, io.ProgramOptionsGetters],
+        'units': [sm.KickMapApplyTo, sm.FokkerPlanckApplyTo, sm.UpdateSM, sm.CalcCoefficiants, io.HDF5AppendTracks, mainspec.MainTrackingFile, mainloop.MainLoop, mainspec.MapDispatch, io.ProgramOptionsGetters],
         'leaves': [leaf.FPApplyToLeaf, leaf.KickApplyToLeaf, leaf.PSxLeaf, leaf.PSyLeaf],
         'lemmas': [sm.lemmas_weights],
         'level': 'other',
@@ -158,7 +158,7 @@ PROPERTIES = {
     },
     'C03': {
         'units': [sm.RFCalcKick, sm.RFKickMapLinearCtor, sm.RFKickMapSinCtor, sm.DriftMapCtor, sm.KickMapCtor, sm.UpdateSM, sm.KickMapApply,
-                  sm.CalcCoefficiants, ps.RulerCtor, mainspec.MainConfig, mainspec.MainPhysics, mainspec.MainWiring, io.ProgramOptionsGetters],
+                  sm.CalcCoefficiants, ps.RulerCtor, mainspec.MainConfig, mainspec.MainPhysics, mainspec.MainWiring, mainspec.MapDispatch, io.ProgramOptionsGetters],
         'lemmas': [sm.lemmas_c03, sm.lemmas_weights],
         'level': 'other',
         'claim': 'one-step law: the RF map displaces row x by tan(angle)*(zerobin-x) cells (sinusoidal: the stated sine law), the drift displaces row y by slip*p(y)/delta_q with slip0 = angle = 2*pi/steps, '
@@ -169,7 +169,7 @@ PROPERTIES = {
         'technique': TECH,
     },
     'C04': {
-        'units': [sm.FokkerPlanckCtor, sm.FokkerPlanckApply, ps.Variance, ps.Average, ps.RulerCtor, mainspec.MainPhysics, mainspec.MainWiring, io.ProgramOptionsGetters],
+        'units': [sm.FokkerPlanckCtor, sm.FokkerPlanckApply, ps.Variance, ps.Average, ps.RulerCtor, mainspec.MainPhysics, mainspec.MainWiring, mainspec.MapDispatch, io.ProgramOptionsGetters],
         'lemmas': [sm.lemmas_fp, sm.lemmas_c04, ps.lemmas_ruler],
         'level': 'other',
         'claim': 'per-step moment law of the damping/diffusion operator the constructor builds (all four variants, both stencils): m0=1, mean -> (1-e1)*mean, second moment -> (1-2e1)v + 2e1 - c*e1*delta^2 with 0<=c<=1, '
@@ -198,7 +198,7 @@ PROPERTIES = {
     },
     'C19': {
         'main_scenarios': ['rfkicks'],
-        'units': [mainspec.MainWiring, io.ProgramOptionsGetters, dynrf.CalcModulation, dynrf.DynRFLinearCtor, dynrf.DynRFSinCtor, dynrf.DynCalcKick, dynrf.DynApply, dynrf.GetPastModulation,
+        'units': [mainspec.MainWiring, mainspec.MapDispatch, io.ProgramOptionsGetters, dynrf.CalcModulation, dynrf.DynRFLinearCtor, dynrf.DynRFSinCtor, dynrf.DynCalcKick, dynrf.DynApply, dynrf.GetPastModulation,
                   sm.RFCalcKick, sm.RFKickMapLinearCtor, sm.RFKickMapSinCtor],
         'lemmas': [dynrf.lemmas_c19],
         'level': 'other',
@@ -211,7 +211,7 @@ PROPERTIES = {
         'technique': TECH,
     },
     'C05': {
-        'units': [mainloop.MainLoop, mainspec.MainConfig, mainspec.MainWiring, io.ProgramOptionsGetters, sm.WakePotentialMapUpdate, ef.ElectricFieldScale, sm.RFCalcKick, sm.DriftMapCtor, sm.FokkerPlanckCtor, ef.WakePotential, sm.UpdateSM, sm.KickMapApply],
+        'units': [mainloop.MainLoop, mainspec.MainConfig, mainspec.MainWiring, mainspec.MapDispatch, io.ProgramOptionsGetters, sm.WakePotentialMapUpdate, ef.ElectricFieldScale, sm.RFCalcKick, sm.DriftMapCtor, sm.FokkerPlanckCtor, ef.WakePotential, sm.UpdateSM, sm.KickMapApply],
         'lemmas': [sm.lemmas_fp, sm.lemmas_c03],
         'level': 'other',
         'claim': 'the ingredients of the stationary (Haissinski) relation are proved on the code: within one step the wake potential is computed from the projection left by the previous step, then wake kick, RF kick, drift, '
@@ -224,7 +224,7 @@ PROPERTIES = {
     },
     'C12': {
         'main_scenarios': ['cadence'],
-        'units': [mainloop.MainLoop, mainspec.MainWiring, io.ProgramOptionsGetters, ps.Integrate, ps.Variance, ps.UpdateYProjection, ps.UpdateXProjection, ef.UpdateCSR, sm.KickMapApply, sm.FokkerPlanckApply, sm.IdentityApply, dynrf.DynApply, dynrf.DynCalcKick],
+        'units': [mainloop.MainLoop, mainspec.MainWiring, mainspec.MapDispatch, io.ProgramOptionsGetters, ps.Integrate, ps.Variance, ps.UpdateYProjection, ps.UpdateXProjection, ef.UpdateCSR, sm.KickMapApply, sm.FokkerPlanckApply, sm.IdentityApply, dynrf.DynApply, dynrf.DynCalcKick],
         'lemmas': [],
         'level': 'other',
         'claim': 'one loop iteration maps the physics state (three grids, x-projection, wake offsets, tracked particles) to the same value whether or not the output block runs: proved on main by a relational invariant over event contracts; '
@@ -248,7 +248,7 @@ PROPERTIES = {
     },
     'C10': {
         'main_scenarios': ['records'],
-        'units': [mainloop.MainLoop, mainspec.MainWiring, io.ProgramOptionsGetters, io.ProgramOptionsSave, ps.UpdateXProjection, ps.UpdateYProjection, ps.Integrate, ps.Variance, ef.WakePotential, ef.UpdateCSR, ef.ElectricFieldScale, io.HDF5FileSources, io.HDF5AppendField, io.HDF5AppendTracks, io.ReadPhaseSpace, io.MakePSFromHDF5],
+        'units': [mainloop.MainLoop, mainspec.MainWiring, mainspec.MapDispatch, io.ProgramOptionsGetters, io.ProgramOptionsSave, ps.UpdateXProjection, ps.UpdateYProjection, ps.Integrate, ps.Variance, ef.WakePotential, ef.UpdateCSR, ef.ElectricFieldScale, io.HDF5FileSources, io.HDF5AppendField, io.HDF5AppendTracks, io.ReadPhaseSpace, io.MakePSFromHDF5],
         'lemmas': [],
         'level': 'other',
         'claim': 'partial: every record of a multi-row dataset takes row b from row b of its source (dataset extents vs buffer layout; for /CSR/Spectrum proved on the row copy of append(ElectricField*)) and no append reads beyond its source buffer; at every output event and at exit the CSR, wake-potential and particle datasets receive as many records as the time axis; the time value of the final record is simulationstep/steps; the derived quantities appended are the ones '
